@@ -499,8 +499,17 @@ class Executor:
                 cobj = m.cons[cname]
                 for j, c in enumerate(cobj if isinstance(cobj, list) else [cobj]):
                     with np.errstate(all="ignore"):
-                        v = float(c.violation(vals))
-                        mag = abs(float(c.evaluate(vals)))
+                        val = float(c.evaluate(vals))
+                    # (Constraint.violation() uses max(0.0, value), which hides a NaN value)
+                    if val != val:
+                        v = float("inf")
+                    elif c.sense == "<=":
+                        v = max(0.0, val)
+                    elif c.sense == ">=":
+                        v = max(0.0, -val)
+                    else:
+                        v = abs(val)
+                    mag = abs(val) if val == val and abs(val) != float("inf") else 1.0
                     allowed = atol + 1e-5 * max(1.0, mag)
                     if not (v <= allowed):
                         if v != v:
